@@ -180,14 +180,21 @@ func (ts *TimeSeries) TakeFrom(src []byte) ([]byte, error) {
 		return nil, err
 	}
 
-	if ts.step == 0 {
-		return nil, errors.New("step must not be zero")
+	if ts.step <= 0 {
+		return nil, errors.New("step must be positive")
 	}
 	if ts.untilTime < ts.fromTime {
 		return nil, errors.New("untilTime is older than fromTime")
 	}
+	d := ts.untilTime.Sub(ts.fromTime)
+	if d < 0 {
+		return nil, errors.New("time range is too long")
+	}
 
-	n := int(ts.untilTime.Sub(ts.fromTime) / ts.step)
+	n := int(d / ts.step)
+	if n > (math.MaxInt32-3*uint32Size)/float64Size {
+		return nil, errors.New("too many values")
+	}
 	wantedSize := n * float64Size
 	if len(src) < wantedSize {
 		return nil, &WantLargerBufferError{WantedBufSize: 3*uint32Size + wantedSize}
